@@ -86,7 +86,14 @@ func (fs DirFs) Delete(dir, fname string) {
 func (fs DirFs) AtomicCreate(dir, fname string, data []byte) {
 	tmpFile := fname + ".tmp"
 	fd, err := unix.Openat(fs.rootFd, tmpFile,
-		unix.O_CREAT|unix.O_WRONLY, 0644)
+		unix.O_CREAT|unix.O_EXCL|unix.O_WRONLY, 0644)
+	// the temp file must be ours alone: skip leftovers of interrupted calls
+	// and the temp files of concurrent callers
+	for i := 0; err == unix.EEXIST; i++ {
+		tmpFile = fmt.Sprintf("%s.%d.tmp", fname, i)
+		fd, err = unix.Openat(fs.rootFd, tmpFile,
+			unix.O_CREAT|unix.O_EXCL|unix.O_WRONLY, 0644)
+	}
 	if err != nil {
 		panic(err)
 	}
